@@ -229,6 +229,25 @@ def reverse_chen_defect(cfg, s, u, t):
     return chen_defect(rb, cfg, s, u, t)
 
 
+def fresh_triple_defect(cfg, s, u, t, reverse):
+    """On a FRESH object (no dt hint, tol = 0) the queries (s,u), (u,t), (s,t) are answered from exactly the two stored pieces [s,u],
+    [u,t]: Chen's relation for the Levy area A then holds exactly, whichever combination of return_U / return_A each call asks for,
+    and what a call returns for A does not depend on whether U was requested in the same call."""
+    bm = build(cfg)
+    ob_ = ReverseBrownian(bm) if reverse else bm
+    W1, U1, A1 = ob_(s, u, return_U=True, return_A=True)
+    W2, U2, A2 = ob_(u, t, return_U=True, return_A=True)
+    W, U, A = ob_(s, t, return_U=True, return_A=True)
+    out = {}
+    cross = 0.5 * (W1.unsqueeze(-1) * W2.unsqueeze(-2) - W2.unsqueeze(-1) * W1.unsqueeze(-2))
+    out['A_chen'] = maxabs(A - (A1 + A2 + cross))
+    _, A_only = ob_(s, t, return_A=True)
+    out['A_flag_dependence'] = maxabs(A - A_only)
+    _, U_only = ob_(s, t, return_U=True)
+    out['U_flag_dependence'] = maxabs(U - U_only)
+    return out
+
+
 # ---------------------------------------------------------------------------------------------------------------
 # C04: exact covariance through the linear map noise -> output (one-hot noise), real BrownianInterval
 # ---------------------------------------------------------------------------------------------------------------
@@ -519,6 +538,13 @@ def reproducibility_search(rng, n_cfg, n_hist):
         st['dyadic_pairs'] += 1
         if not torch.equal(tr1(a, b), tr2(a, b)):
             fails.append(dict(kind='BrownianTree-history-dependence', entropy=ent, query=[a, b]))
+        # ... and POINT evaluations (the form solvers' users call): the value at a time does not depend on which points were
+        # evaluated before (tr1 has a history, tr2 is fresh)
+        for pt in [rng.choice([1.0, 0.75, 0.5]), round(rng.random(), 4)]:
+            st['dyadic_pairs'] += 1
+            if not torch.equal(tr1(pt), tr2(pt)):
+                fails.append(dict(kind='BrownianTree-point-history-dependence', entropy=ent, point=pt))
+                break
         if len(fails) >= 2:
             break
     return fails, st
